@@ -357,7 +357,12 @@ type advWorld struct {
 }
 
 func newAdvWorld(cfg config.Interface, fwd bool, watch bool) *advWorld {
-	a := &advWorld{world: newWorld([]config.Interface{cfg}, fwd), cfg: cfg, term: &terminator{}}
+	return newAdvWorldIfis(cfg, []config.Interface{cfg}, fwd, watch)
+}
+
+// newAdvWorldIfis: as newAdvWorld, with metrics built over all of ifis (as main.go does).
+func newAdvWorldIfis(cfg config.Interface, ifis []config.Interface, fwd bool, watch bool) *advWorld {
+	a := &advWorld{world: newWorld(ifis, fwd), cfg: cfg, term: &terminator{}}
 	if watch {
 		a.watchC = make(chan netstate.Change, 8)
 	}
